@@ -205,7 +205,7 @@ pub fn check(case: &Case, res: &RunResult, status: &str) -> Vec<(String, String)
         }
         inflight.insert(*tid);
       }
-      Ev::Ret { tid, res: r, aux } => {
+      Ev::Ret { tid, res: r, .. } => {
         for (t, f) in foreign_event.iter_mut() {
           if t != tid {
             *f = true;
